@@ -1524,6 +1524,129 @@ class PathEval(Flow):
         return ("unknown",)
 
 
+
+def const_fold(e, depth=0):
+    """Python value (int / bool) of an expression built only from constants, comparisons / arithmetic on them and projections
+    out of aggregates of them; None when it is not a constant."""
+    if depth > 12 or not isinstance(e, tuple) or not e:
+        return None
+    e = strip_refs(e)
+    k = e[0]
+    if k == "const":
+        try:
+            v = int(e[2])
+        except (TypeError, ValueError):
+            return None
+        return bool(v) if e[1] == "bool" else v
+    if k == "proj":
+        base = strip_refs(e[1])
+        elems = list(e[2])
+        while elems and base[0] == "agg":
+            el = elems[0]
+            if el.startswith("@"):
+                if "::" in base[1] and base[1].rsplit("::", 1)[1] != el[1:]:
+                    return None
+                elems = elems[1:]
+                continue
+            if el.startswith(".") and el[1:].isdigit() and int(el[1:]) < len(base[2]):
+                base = strip_refs(base[2][int(el[1:])])
+                elems = elems[1:]
+                continue
+            if el.startswith(".") and len(base) > 3 and el[1:] in base[3]:
+                base = strip_refs(base[2][list(base[3]).index(el[1:])])
+                elems = elems[1:]
+                continue
+            return None
+        if elems == [".0"] and base[0] == "binop" and base[1].endswith("WithOverflow"):
+            return const_fold(("binop", base[1].replace("WithOverflow", ""), base[2], base[3]), depth + 1)
+        return const_fold(base, depth + 1) if not elems else None
+    if k == "binop":
+        a, b = const_fold(e[2], depth + 1), const_fold(e[3], depth + 1)
+        if a is None or b is None:
+            return None
+        op = e[1].replace("Unchecked", "")
+        try:
+            return {"Eq": a == b, "Ne": a != b, "Lt": a < b, "Le": a <= b, "Gt": a > b, "Ge": a >= b,
+                    "Add": a + b, "Sub": a - b, "Mul": a * b, "BitAnd": a & b, "BitOr": a | b, "BitXor": a ^ b}[op]
+        except (KeyError, TypeError):
+            return None
+    if k == "unop" and e[1] == "Not":
+        v = const_fold(e[2], depth + 1)
+        return (not v) if isinstance(v, bool) else None
+    if k == "cast":
+        return const_fold(e[2], depth + 1)
+    return None
+
+
+def _agg_at(e, depth=0):
+    """The aggregate an expression denotes after projecting through aggregates (`(0, Busy).1` -> the Busy aggregate)."""
+    if depth > 12:
+        return None
+    e = strip_refs(e)
+    if e[0] == "agg":
+        return e
+    if e[0] == "proj":
+        base = _agg_at(e[1], depth + 1)
+        for el in e[2]:
+            if base is None or base[0] != "agg":
+                return None
+            if el.startswith("@"):
+                if "::" in base[1] and base[1].rsplit("::", 1)[1] != el[1:]:
+                    return None
+                continue
+            if el == "*":
+                continue
+            if el.startswith(".") and el[1:].isdigit() and int(el[1:]) < len(base[2]):
+                base = strip_refs(base[2][int(el[1:])])
+            elif el.startswith(".") and len(base) > 3 and el[1:] in base[3]:
+                base = strip_refs(base[2][list(base[3]).index(el[1:])])
+            else:
+                return None
+        return base if base is not None and base[0] == "agg" else None
+    return None
+
+
+def path_const_feasible(body, path):
+    """False when the path takes, at some switch, an edge that contradicts the constant its operand evaluates to ALONG THIS
+    PATH (e.g. `(finished, state) = (0, Busy)` assigned in one arm of an inlined helper, then `finished > 0` taken as true)."""
+    pe = PathEval(body, [])
+    b = body
+    discr_info = {}
+    for i, bb in enumerate(path):
+        for s in b.stmts(bb):
+            if s["k"] == "assign" and not s["place"]["p"] and s["rv"]["k"] == "discr":
+                discr_info[s["place"]["l"]] = (pe.place_expr(s["rv"]["place"]), s["rv"]["variants"])
+            if s["k"] == "assign" and not s["place"]["p"]:
+                pe.env[s["place"]["l"]] = pe.rvalue_expr(s["rv"], bb)
+            elif s["k"] == "assign" and s["place"]["p"] and not any(e["k"] == "deref" for e in s["place"]["p"]):
+                pe.env.setdefault(s["place"]["l"], ("unknown",))
+        t = b.term(bb)
+        if t["k"] == "call" and not t["dest"]["p"]:
+            pe.env[t["dest"]["l"]] = pe.call_expr(t, bb)
+        if t["k"] == "switch" and i + 1 < len(path):
+            d = t["discr"]
+            dty = d.get("place", {}).get("ty") if d["k"] != "const" else d.get("ty")
+            v = const_fold(pe.operand_expr(d))
+            if v is None and d["k"] in ("copy", "move") and not d["place"]["p"] and d["place"]["l"] in discr_info:
+                # the discriminant of a value that is, on this path, an aggregate built as a known variant
+                pexp, variants = discr_info[d["place"]["l"]]
+                av = _agg_at(pexp)
+                if av is not None and av[0] == "agg" and "::" in av[1]:
+                    vn = av[1].rsplit("::", 1)[1]
+                    vals = [x[0] for x in variants if x[1] == vn]
+                    if vals:
+                        v = int(vals[0])
+            if v is None:
+                continue
+            nxt = path[i + 1]
+            iv = int(v)
+            taken = [tb for tv, tb in t["targets"] if str(tv).lstrip("-").isdigit() and int(tv) == iv]
+            expect = taken[0] if taken else t["otherwise"]
+            if nxt != expect:
+                return False
+    return True
+
+
 # ---------------------------------------------------------------------- iterator-loop helpers
 
 ADAPTOR_OK = ("into_iter", "iter_mut", "iter", "enumerate", "rev", "filter", "by_ref", "as_mut", "deref_mut", "deref",
